@@ -136,6 +136,18 @@ partial def multiSlot : Slot → Bool
   | .map kvs => kvs.toList.length ≥ 2 || kvs.toList.any fun (_, v) => multiE v
 end
 
+/-- the well-known wrapper impls of prost/types.rs: one field, tag 1, of the given module. -/
+def wrapCodec : String → Option Codec
+  | "bool" => some .bool | "u32" => some .uint32 | "u64" => some .uint64 | "i32" => some .int32 | "i64" => some .int64
+  | "f32" => some .float | "f64" => some .double | "string" => some .string | "vec" => some .bytes | "bytes" => some .bytes
+  | _ => none
+
+def wrapSchema (c : Codec) : Schema := [[.single 1 (.scalar c) false]]
+
+def wrapVal : Slots → Option SVal
+  | .cons (.req (.s v)) .nil => some v
+  | _ => none
+
 def flagOf : String → Option Bool
   | "f0" => some false | "f1" => some true | _ => none
 
@@ -244,6 +256,30 @@ def answer (items : List Sexp) : Option String := do
     let bs ← items[5]? >>= Sexp.asHex
     match decodeInto s i m bs with
     | .ok r => pure s!"ok {slotsSexp r}"
+    | o => pure o.cls
+  | "pbwrapenc" =>
+    let c ← items[1]? >>= Sexp.asAtom >>= wrapCodec
+    let v ← items[2]? >>= svOf
+    -- `if *self != default { <module>::encode(1, self, buf) }` (IEEE `!=` on floats)
+    let b := if v.isDefault then [] else c.encode 1 v
+    let l := if v.isDefault then 0 else c.encodedLen 1 v
+    pure s!"ok {hexOrDash b} len={l}"
+  | "pbwrapdec" =>
+    let c ← items[1]? >>= Sexp.asAtom >>= wrapCodec
+    let bs ← items[2]? >>= Sexp.asHex
+    match decode (wrapSchema c) 0 bs with
+    | .ok r => do let v ← wrapVal r; pure s!"ok {svSexp v}"
+    | o => pure o.cls
+  | "pbwrapld" =>
+    let c ← items[1]? >>= Sexp.asAtom >>= wrapCodec
+    let bs ← items[2]? >>= Sexp.asHex
+    match decodeLengthDelimited (wrapSchema c) 0 bs with
+    | .ok (r, rest) => do let v ← wrapVal r; pure s!"ok {svSexp v} rem={rest.length}"
+    | o => pure o.cls
+  | "pbunit" =>
+    let bs ← items[1]? >>= Sexp.asHex
+    match decode [[]] 0 bs with
+    | .ok _ => pure "ok"
     | o => pure o.cls
   | _ => none
 
